@@ -37,7 +37,7 @@ func init() {
 		Rule: "case = one mapping of the C03 grid (incl. non-default offsets) plus a second one: binary Encode->Decode, ToProto->Marshal->Unmarshal->FromProto and EncodeProto->Unmarshal->FromProto must give mappings that are Equals both ways and agree bitwise on Index (300 probes), Value, LowerBound, RelativeAccuracy, Min/MaxIndexableValue; " +
 			"mapping from alpha Equals mapping from its (gamma, offset); Equals reflexive and symmetric on the pair; different kinds never equal; same kind with alpha >= 0.1% apart (or offsets apart) never equal. Non-trivial = non-default offset or pair of same kind with close parameters; distinct = hash of both mappings.",
 		Cases:     core.Scale(120000, 3000000),
-		Mandatory: []string{"oracle.binary_roundtrips", "oracle.proto_roundtrips", "oracle.stream_proto_roundtrips", "oracle.inequalities.kind", "oracle.inequalities.alpha", "oracle.inequalities.offset", "oracle.probe_agreements", "oracle.accuracy_vs_base_and_offset"},
+		Mandatory: []string{"oracle.binary_roundtrips", "oracle.proto_roundtrips", "oracle.stream_proto_roundtrips", "oracle.inequalities.kind", "oracle.inequalities.alpha", "oracle.inequalities.offset", "oracle.probe_agreements", "oracle.accuracy_vs_base_and_offset", "oracle.near_twin_pairs", "oracle.near_twin_roundtrips", "near_twins.equal_within_tolerance", "near_twins.zero_offset_vs_tiny_offset"},
 		Run:       runC19,
 	})
 	core.Register(&core.Prop{
@@ -449,6 +449,110 @@ func runC19(c *core.Ctx) {
 				}
 			}
 		}
+	}
+
+	// near twins: the same kind with a base or an offset that differs in the last bits only (or a tiny offset next
+	// to an offset of exactly zero). Whether such a pair is Equals is the tolerance's business; the answer must
+	// be the same in both directions, and when the two are serialized and read back one right after the other,
+	// in either order, each comes back as itself (nothing of the previously read mapping sticks).
+	c.Guard("near twins", func() {
+		x := a
+		var y *gen.Map
+		mode := r.Intn(4)
+		k := float64((1 + r.Intn(4)) * (1 - 2*r.Intn(2)))
+		tiny := []float64{5e-324, 1e-300, 1e-20, 1e-13, 9e-13, 2e-12}[r.Intn(6)] * float64(1-2*r.Intn(2))
+		switch mode {
+		case 0:
+			y, _ = gen.NewMapGamma(a.Kind, a.Gamma*(1+k*0x1p-43), a.Offset)
+		case 1:
+			off := a.Offset * (1 + k*0x1p-43)
+			if a.Offset == 0 {
+				off = tiny
+			}
+			y, _ = gen.NewMapGamma(a.Kind, a.Gamma, off)
+		case 2:
+			// an offset of exactly zero next to a tiny one
+			x, _ = gen.NewMapGamma(a.Kind, a.Gamma, 0)
+			y, _ = gen.NewMapGamma(a.Kind, a.Gamma, tiny)
+		default:
+			y, _ = gen.NewMapGamma(a.Kind, a.Gamma*(1+k*0x1p-50), a.Offset)
+		}
+		if x == nil || y == nil || (x.Gamma == y.Gamma && x.Offset == y.Offset) {
+			return
+		}
+		if r.Bool() {
+			x, y = y, x
+		}
+		xy, yx := x.M.Equals(y.M), y.M.Equals(x.M)
+		c.Count("oracle.near_twin_pairs", 1)
+		if xy {
+			c.Count("near_twins.equal_within_tolerance", 1)
+		}
+		if mode == 2 {
+			c.Count("near_twins.zero_offset_vs_tiny_offset", 1)
+		}
+		if xy != yx {
+			c.Failf("equals.symmetric", "Equals is not symmetric on the near twins %s / %s: %v vs %v", x.Desc, y.Desc, xy, yx)
+			return
+		}
+		readBack := func(m *gen.Map, form int) *gen.Map {
+			switch form {
+			case 0:
+				var b []byte
+				m.M.Encode(&b)
+				flag, err := enc.DecodeFlag(&b)
+				if err != nil {
+					return nil
+				}
+				dm, err := mapping.Decode(&b, flag)
+				if err != nil || dm == nil {
+					return nil
+				}
+				return wrapDecoded(dm)
+			case 1:
+				raw, err := proto.Marshal(m.M.ToProto())
+				if err != nil {
+					return nil
+				}
+				var pb sketchpb.IndexMapping
+				if proto.Unmarshal(raw, &pb) != nil {
+					return nil
+				}
+				dm, err := mapping.FromProto(&pb)
+				if err != nil || dm == nil {
+					return nil
+				}
+				return wrapDecoded(dm)
+			default:
+				var buf bytes.Buffer
+				m.M.EncodeProto(sketchpb.NewIndexMappingBuilder(&buf))
+				var pb sketchpb.IndexMapping
+				if proto.Unmarshal(buf.Bytes(), &pb) != nil {
+					return nil
+				}
+				dm, err := mapping.FromProto(&pb)
+				if err != nil || dm == nil {
+					return nil
+				}
+				return wrapDecoded(dm)
+			}
+		}
+		form := r.Pick(3, 1, 1)
+		how := []string{"binary", "proto", "stream_proto"}[form] + " (right after its near twin)"
+		dx := readBack(x, form)
+		dy := readBack(y, form)
+		dx2 := readBack(x, form)
+		if dx == nil || dy == nil || dx2 == nil {
+			c.Failf("near_twins.read_back", "%s / %s could not be read back (%s)", x.Desc, y.Desc, how)
+			return
+		}
+		c.Count("oracle.near_twin_roundtrips", 1)
+		agree(c, how, x, dx, r)
+		agree(c, how, y, dy, r)
+		agree(c, how, x, dx2, r)
+	})
+	if c.Failed() {
+		return
 	}
 
 	// second mapping and the inequality matrix
